@@ -12,6 +12,8 @@ def run(ctx, rep):
     run_signpair(ctx, rep)
     run_minpair(ctx, rep)
     prog = ctx.prog("Q")
+    from ..rules_contract import transient_callers
+    transient_callers(rep, prog)
     rep.notes.append("Does not decide exactness of the decomposition for all values.")
     floor_a(ctx, rep)
     req_dep(rep, prog)
